@@ -131,22 +131,22 @@ static int key_file(const SM2_KEY *key, Rng *r, char path[64])
 }
 
 /* 1 ok, -1 the library refused */
-static int ctx_from_files(Endpoint *ep, const uint8_t *chain, size_t chainlen, const SM2_KEY *sign, const SM2_KEY *kenc,
-	const uint8_t *ca, size_t calen)
+int ctx_setup_from_files(TLS_CTX *ctx, Rng *rng, const uint8_t *chain, size_t chainlen, const SM2_KEY *sign, const SM2_KEY *kenc,
+	const uint8_t *ca, size_t calen, int depth)
 {
 	char pc[64], ps[64], pk[64], pa[64];
 	int fc = -1, fs = -1, fk = -1, fa = -1, ret = 1;
 	if (chain && chainlen) {
-		fc = certs_file(chain, chainlen, pc); fs = key_file(sign, &ep->rbuf, ps);
-		if (kenc) fk = key_file(kenc, &ep->rbuf, pk);
+		fc = certs_file(chain, chainlen, pc); fs = key_file(sign, rng, ps);
+		if (kenc) fk = key_file(kenc, rng, pk);
 		if (fc < 0 || fs < 0 || (kenc && fk < 0)) die("pem files");
-		if (kenc) ret = tls_ctx_set_tlcp_server_certificate_and_keys(&ep->ctx, pc, ps, g_keypass, pk, g_keypass);
-		else ret = tls_ctx_set_certificate_and_key(&ep->ctx, pc, ps, g_keypass);
+		if (kenc) ret = tls_ctx_set_tlcp_server_certificate_and_keys(ctx, pc, ps, g_keypass, pk, g_keypass);
+		else ret = tls_ctx_set_certificate_and_key(ctx, pc, ps, g_keypass);
 	}
 	if (ret == 1 && ca && calen) {
 		fa = certs_file(ca, calen, pa);
 		if (fa < 0) die("pem files");
-		ret = tls_ctx_set_ca_certificates(&ep->ctx, pa, TLS_DEFAULT_VERIFY_DEPTH);
+		ret = tls_ctx_set_ca_certificates(ctx, pa, depth);
 	}
 	if (fc >= 0) close(fc);
 	if (fs >= 0) close(fs);
@@ -188,11 +188,11 @@ static int ep_setup_inner(Endpoint *ep, int side, Conn *c, const Plan *p, const 
 			if (p->extra_roots > 0) trustlen += creds_extra_roots((int)p->extra_roots, trust + trustlen, sizeof(trust) - trustlen);
 		}
 		int have_cert = side == 1 || p->mutual || (p->cred_mode & 4);
-		if (ctx_from_files(ep, have_cert ? (side == 0 ? cs->cli_chain : cs->srv_chain) : NULL,
+		if (ctx_setup_from_files(&ep->ctx, &ep->rbuf, have_cert ? (side == 0 ? cs->cli_chain : cs->srv_chain) : NULL,
 				have_cert ? (side == 0 ? cs->cli_chain_len : cs->srv_chain_len) : 0,
 				side == 0 ? &cs->cli_sign.key : &cs->srv_sign.key,
 				side == 1 && cs->tlcp ? &cs->srv_enc.key : NULL,
-				want_trust ? trust : NULL, trustlen) != 1) return -1;
+				want_trust ? trust : NULL, trustlen, TLS_DEFAULT_VERIFY_DEPTH) != 1) return -1;
 	}
 	ep->conn = calloc(1, sizeof(TLS_CONNECT));
 	if (!ep->conn) die("oom");
@@ -293,6 +293,7 @@ static int do_write(Endpoint *ep, int dir, uint64_t n, uint64_t wchunk)
 				ep->send_retries++;
 				continue;
 			}
+			if (ret != 1 && chunk - off >= 16) leak_add_secret("decrypted_plaintext", buf + off, chunk - off >= 48 ? 48 : chunk - off);   /* handed to the library, never delivered */
 			if (ret != 1) { io_fail(ep, "send ret=%d at byte %llu", ret, (unsigned long long)ep->wrote[dir]); return -1; }
 			if (sent == 0 || sent > chunk - off) {
 				io_fail(ep, "send sentlen=%zu for inlen=%zu", sent, chunk - off);
